@@ -357,7 +357,7 @@ def run_case(seed: int, idx: int, res: UnitResult) -> None:
     desc = describe(case)
     res.case(key=desc, nontrivial=bool(expected) or terminal is not None or f == "never",
              sample={"case": desc, "expected": show_timed(expected) + [list(terminal[:1]) if terminal else "no terminal"],
-                     "observed": show_timed(actual)})
+                     "observed": show_timed(actual[:40])})
     res.note("factories", f)
     res.note("modes", case["mode"])
     res.count("elements_compared", len(expected))
